@@ -147,9 +147,15 @@ type Once struct {
 }
 
 var (
-	onces []*Once
-	maps  []*Map
+	onces  []*Once
+	maps   []*Map
+	resets []func() // one-shot resets registered by other shims (vatomic); dropped after they ran
 )
+
+// RegisterReset adds a reset action for ResetAll (used by the atomic shim).
+//
+//go:norace
+func RegisterReset(f func()) { resets = append(resets, f) }
 
 //go:norace
 func (o *Once) EnabledFor(kind string) bool { return !o.running }
@@ -293,6 +299,11 @@ func ResetAll() {
 	}
 	for _, m := range maps {
 		m.m.Range(func(k, _ any) bool { m.m.Delete(k); return true })
+	}
+	rs := resets
+	resets = nil
+	for _, f := range rs {
+		f()
 	}
 }
 
